@@ -509,8 +509,17 @@ def run_suite(name, tier, seed, mc_results, profile="dev"):
         viol.append({"prop": p, "pred": pred, "driver": did, "i": ev.get("i", 0), "arena": arena, "profile": profile,
                      "op": ev.get("op"), "pre_alloc": pre_alloc(gline, arena) if ev.get("ev") == "op" else None,
                      "res": (ev.get("arenas") or [{}] * arena)[arena - 1].get("res") if ev.get("ev") == "op" else None})
+    def died_prop(c):
+        # the property that speaks about the call during which the process died (signal, abort, or CPU limit = never returned)
+        if str(c["id"]).startswith(("ro:", "reopen:", "open:")):
+            return "C09"
+        k = (c.get("op") or {}).get("k", "")
+        return {"drop": "C13", "dealloc": "C13", "leak": "C13", "detach": "C13", "mkclone": "C13", "dropclone": "C13",
+                "rewind": "C17", "clear": "C17", "truncate": "C18", "cobs": "C18",
+                "discard": "C20", "incdisc": "C20", "setmin": "C20", "reopen": "C05", "flush": "C05"}.get(k, "C04")
+
     for c in crashes:
-        viol.append({"prop": "C09" if str(c["id"]).startswith(("ro:", "reopen:", "open:")) else "C04", "pred": "ProcessDied", "driver": c["id"], "i": c["i"], "arena": 0, "op": c["op"],
+        viol.append({"prop": died_prop(c), "pred": "ProcessDied", "driver": c["id"], "i": c["i"], "arena": 0, "op": c["op"],
                      "profile": profile, "pre_alloc": None, "res": {"k": "signal", "sig": c["sig"]}})
     drift = []
     for (gline, arena, what) in impl["drift"]:
@@ -542,7 +551,7 @@ def run_seq_harness(binary, dfile, tfile, filesdir, flush=False):
         with open(pfile, "w") as f:
             f.writelines(pending)
         args = [pfile, ofile, filesdir] + (["--flush"] if flush else [])
-        rc, out, _ = rv.run_harness(binary, "seq", args, timeout=1800, allow_fail=True)
+        rc, out, _ = rv.run_harness(binary, "seq", args, timeout=3600, allow_fail=True, cpu_limit=int(os.environ.get("RV_CPU_LIMIT", "300")))
         with open(ofile) as f:
             got = f.readlines()
         if rc == 0:
